@@ -307,6 +307,28 @@ type c15SessOp struct {
 	Op  string `json:"op"`
 	Qos int    `json:"qos,omitempty"`
 	N   int    `json:"n,omitempty"`
+	Pay int    `json:"pay,omitempty"` // pub: payload shape, see c15SessPayload
+}
+
+// c15SessPayload: the i-th message's payload. Arbitrary bytes: text, bytes whose base64 needs '+' and '/',
+// a large one, an empty one; all distinct within a case.
+func c15SessPayload(i, kind int) []byte {
+	tag := []byte(fmt.Sprintf("m%d", i))
+	switch kind {
+	case 1:
+		return append(tag, 0xfb, 0xff, 0xfe, 0xfa, 0x3f, 0x3e, 0x00)
+	case 2:
+		return append([]byte{0xff, 0xfb, 0xef, 0xbe}, tag...)
+	case 3:
+		b := append([]byte{}, tag...)
+		for j := 0; j < 3000; j++ {
+			b = append(b, byte(0xf8+(j*7+i)%8), byte(j))
+		}
+		return b
+	case 4:
+		return []byte{}
+	}
+	return tag
 }
 
 type c15SessIn struct {
@@ -326,12 +348,14 @@ type c15SessObs struct {
 	Bad   []string      `json:"bad"`
 }
 
-func c15PayloadIndex(p string) int {
-	var i int
-	if _, err := fmt.Sscanf(p, "m%d", &i); err != nil {
-		return -1
+// c15PayloadIndex: which of the payloads sent so far this is, byte for byte (-1: none of them).
+func c15PayloadIndex(p string, sent [][]byte) int {
+	for i, s := range sent {
+		if string(s) == p {
+			return i
+		}
 	}
-	return i
+	return -1
 }
 
 func c15RunSess(in c15SessIn) (obs c15SessObs) {
@@ -357,10 +381,11 @@ func c15RunSess(in c15SessIn) (obs c15SessObs) {
 	known := map[int]bool{}
 	acked := map[int]bool{}
 	npub := 0
+	sent := [][]byte{}
 	collect := func(st *c15SessStep) {
 		all := cli.received()
 		for _, pk := range all[consumed:] {
-			st.Recv = append(st.Recv, [3]int{pk.ID, pk.Qos, c15PayloadIndex(pk.Payload)})
+			st.Recv = append(st.Recv, [3]int{pk.ID, pk.Qos, c15PayloadIndex(pk.Payload, sent)})
 			if pk.Qos == 1 && !known[pk.ID] {
 				known[pk.ID] = true
 				ids = append(ids, pk.ID)
@@ -376,7 +401,17 @@ func c15RunSess(in c15SessIn) (obs c15SessObs) {
 		st := c15SessStep{Recv: [][3]int{}, Acked: -1, Res: "ok"}
 		switch op.Op {
 		case "pub":
-			if code := env.httpPublish("t/x", op.Qos, fmt.Sprintf("m%d", npub)); code != 200 {
+			kind := op.Pay
+			if kind == 4 {
+				for _, b := range sent {
+					if len(b) == 0 {
+						kind = 1 // at most one empty payload per case (payloads identify the messages)
+					}
+				}
+			}
+			pay := c15SessPayload(npub, kind)
+			sent = append(sent, pay)
+			if code := env.httpPublishBytes("t/x", op.Qos, pay); code != 200 {
 				st.Res = fmt.Sprintf("http %d", code)
 			}
 			npub++
@@ -405,6 +440,7 @@ func c15RunSess(in c15SessIn) (obs c15SessObs) {
 				break
 			}
 			base := consumed
+			cli.maxWait = 6 * time.Second // 30 ticker periods
 			r := cli.waitFor(func() bool {
 				for _, pk := range cli.recv[base:] {
 					if pk.Qos == 1 && known[pk.ID] && !acked[pk.ID] {
@@ -413,6 +449,7 @@ func c15RunSess(in c15SessIn) (obs c15SessObs) {
 				}
 				return false
 			})
+			cli.maxWait = 0
 			if r != "ok" {
 				st.Res = "noresend"
 			}
@@ -442,7 +479,7 @@ func c15GenSess(r *vfRand, adv bool) c15SessIn {
 			if r.Chance(1, 4) {
 				q = 0
 			}
-			in.Ops = append(in.Ops, c15SessOp{Op: "pub", Qos: q})
+			in.Ops = append(in.Ops, c15SessOp{Op: "pub", Qos: q, Pay: r.PickInt(0, 1, 1, 2, 3, 4)})
 			pubs++
 		case k < 7:
 			in.Ops = append(in.Ops, c15SessOp{Op: "ack", N: r.Intn(pubs + 1)})
@@ -617,6 +654,12 @@ func TestVerifC15(t *testing.T) {
 				t.Fatal(err)
 			}
 			out.Emit(vfCase{ID: id, Src: src, Grp: grp, In: in, Obs: c15RunCPub(in)})
+		case "gen":
+			var in c15GenIn
+			if err := json.Unmarshal(raw, &in); err != nil {
+				t.Fatal(err)
+			}
+			out.Emit(vfCase{ID: id, Src: src, Grp: grp, In: in, Obs: c15RunGen(in)})
 		}
 	}
 	for _, sc := range vfStored("") {
@@ -639,11 +682,17 @@ func TestVerifC15(t *testing.T) {
 	if nsess < 2 {
 		nsess = 2
 	}
+	ngen := 4 // object life-cycle scenarios (real API server): few
+	if vfTier() == "thorough" {
+		ngen = 20
+	}
 	for i := 0; i < n && !c15GiveUp(); i++ {
 		r := root.Fork(i)
 		var grp string
 		var in interface{}
 		switch {
+		case i >= nsess && i < nsess+ngen:
+			grp, in = "gen", c15GenGen(r)
 		case i < nsess:
 			grp, in = "sess", c15GenSess(r, adv)
 		case i%4 == 3:
